@@ -255,6 +255,44 @@ func childC12(a []string) string {
 		if r.Bool() {
 			c.Close()
 		}
+	case "tracing":
+		// a client turns the tracing of the objects on and subscribes to their trace signal — more than once, while the
+		// tracing is on — and goes on calling: every traced message makes events for the subscribers of the trace signal
+		c, err := w.rawConn()
+		if err != nil {
+			return "setup-error:" + err.Error()
+		}
+		go c12Drain(c, 4*time.Second)
+		id := uint32(100)
+		for _, svc := range []uint32{2, 3, 1} {
+			if r.Bool() {
+				id++
+				c12Frame(c, qnet.Call, svc, 1, 85, id, []byte{1}) // enableTrace(true)
+			}
+			for k := 0; k < 2+r.Intn(2); k++ {
+				id++
+				c12Frame(c, qnet.Call, svc, 1, 0, id, append(append(le32(1), le32(86)...), le64(uint64(9000+id))...))
+			}
+			for k := 0; k < 6; k++ {
+				id++
+				switch r.Intn(3) {
+				case 0:
+					c12Frame(c, qnet.Call, svc, 1, 2, id, le32(1)) // metaObject
+				case 1:
+					c12Frame(c, qnet.Call, 2, 1, 100, id, svString("traced")) // hello
+				default:
+					c12Frame(c, qnet.Post, 2, 1, 101, id, svString("ping"))
+				}
+			}
+		}
+		time.Sleep(300 * time.Millisecond)
+		// the other clients are served while this one is still there, and after it has left
+		if res := w.probe(); res != "ok" {
+			return res
+		}
+		if r.Bool() {
+			c.Close()
+		}
 	case "truncated":
 		// the arguments of every action an object has of its own (subscriptions, meta-object, properties,
 		// statistics, traces) and of the services' methods, cut at every length: as calls and as posts
@@ -502,7 +540,7 @@ func runC12(r *Rand, tier string, o *Out) {
 	if tier == "thorough" {
 		per = 12
 	}
-	for _, sc := range []string{"valid", "subscriptions", "raw", "truncated", "lengths", "flood-reading", "flood-posts", "terminate-busy", "terminate-other", "deep-signature", "disconnects"} {
+	for _, sc := range []string{"valid", "subscriptions", "raw", "truncated", "tracing", "lengths", "flood-reading", "flood-posts", "terminate-busy", "terminate-other", "deep-signature", "disconnects"} {
 		for i := 0; i < per; i++ {
 			line := fmt.Sprintf("c12.run %s %d", sc, r.U64()>>1)
 			if out := o.Do("P", line, true); out != "ok" {
